@@ -327,6 +327,8 @@ func (cur *FieldMask) GetPath(desc *thrift_reflection.TypeDescriptor, path strin
 			return last, true
 		}
 		last = cur
+		// the type may be written through typedefs (addPath unwraps them too)
+		desc = unwrapDesc(desc)
 
 		stok := it.Next()
 		if stok.Err() != nil {
